@@ -953,6 +953,19 @@ class Interp:
             if f[0] == "ctor":
                 return ("optmap", recv, var(f[1], ("some_payload", recv)))
             return ("app", g, (recv, f))
+        if g.endswith("iterator::Iterator::find_map") or g.endswith("iterator::Iterator::find") or g.endswith("iterator::Iterator::any") or g.endswith("iterator::Iterator::position"):
+            # search over a stream: the (first) element for which the closure answers; kept as an opaque application
+            # of the closure's result at the running element: ("app", "search:<kind>", (domain, result term, element))
+            s = self.to_stream(ev(0))
+            f = ev(1)
+            dom = s[1]
+            self.loop_stack.append(dom)
+            try:
+                elem = self.stream_elem(s)
+                r = self.call_closure(f, [elem]) if f[0] == "closure" else ("app", "callvalue", (f, elem))
+            finally:
+                self.loop_stack.pop()
+            return ("app", "search:" + g.rsplit("::", 1)[-1], (dom, r, elem))
         if g.endswith("iterator::Iterator::enumerate"):
             s = self.to_stream(ev(0))
             return ("stream", s[1], s[2], s[3] + (("enumerate",),))
@@ -1173,7 +1186,7 @@ def replace_term(t, old, new):
     return t
 
 
-def split_phis(t, conds=(), limit=64):
+def split_phis(t, conds=(), limit=2048):
     """[(conds, t')] — every phi inside t expanded into its alternatives (consistent with conds), t' phi-free"""
     out = []
     work = [(tuple(conds), t)]
@@ -1190,4 +1203,40 @@ def split_phis(t, conds=(), limit=64):
                 work.append((c2, replace_term(cur, ph, x)))
         if len(out) + len(work) > limit:
             raise Unsupported("too many phi alternatives")
+    return out
+
+
+def value_points(events, final_val, conds=(), loops=()):
+    """every way a region produces its value: [(conds, value, enclosing loop domains)] — `return v` exits at any depth
+    (inside loops too) in program order, then the alternatives of the fall-through value"""
+    out = []
+    cur = tuple(conds)
+
+    def walk(evs, cs, lp):
+        for e in evs:
+            if e[0] == "rep":
+                walk(e[2], cs, lp + (e[1],))
+            elif e[0] == "alt":
+                taken_none = []
+                for alt in e[1]:
+                    cond, sub, xk = alt[0], alt[1], alt[2]
+                    xv = alt[3] if len(alt) > 3 else None
+                    c2 = cs + expand_else(cond)
+                    if xk == "return":
+                        walk(sub, c2, lp)
+                        out.append((c2, xv, lp))
+                    elif xk is None:
+                        walk(sub, c2, lp)
+                    if cond is not True:
+                        taken_none.append(negate(cond))
+                # continuing past the alt: alternatives that exited contribute their negation
+                exits = [alt for alt in e[1] if alt[2] is not None]
+                for alt in exits:
+                    if alt[0] is not True and not (isinstance(alt[0], tuple) and alt[0] and alt[0][0] == "else"):
+                        cs = cs + (negate(alt[0]),)
+        return cs
+    cs = walk(events, cur, tuple(loops))
+    if final_val is not None:
+        for c2, v in split_phis(final_val, cs):
+            out.append((c2, v, tuple(loops)))
     return out
